@@ -516,7 +516,14 @@ ApplyMake(preds, mk) ==
       clones == [i \in 1..Len(order) |->
                    [pm[order[i]] EXCEPT !.name = m[order[i]],
                                         !.rules = [j \in 1..Len(@) |-> RenRule(@[j], m)]]]
-  IN preds \o clones
+      \* the made predicate may also have hand-written rules and its own
+      \* order_by / limit: then the clone's rules are added to that predicate
+      own == {i \in 1..Len(preds) : preds[i].name = mk.name}
+      fclone == clones[CHOOSE i \in 1..Len(order) : order[i] = mk.functor]
+  IN IF own = {} THEN preds \o clones
+     ELSE [i \in 1..Len(preds) |->
+             IF i \in own THEN [preds[i] EXCEPT !.rules = @ \o fclone.rules] ELSE preds[i]]
+          \o SelectSeq(clones, LAMBDA c : c.name # mk.name)
 
 RECURSIVE ApplyMakes(_, _)
 ApplyMakes(preds, makes) ==
